@@ -206,7 +206,7 @@ Example C20_scale_invariant_exact_ex :
                  kinds l' = [sub_recipe_reference_non_positive_remainder].
 Proof.
   split; [reflexivity|]. split; [reflexivity|]. split; [apply Forall_exact_b; vm_compute; reflexivity|]. split.
-  - unfold exact_conversions. vm_compute. repeat constructor.
+  - apply exact_conversions_b_ok. vm_compute. reflexivity.
   - eexists. eexists. split; [vm_compute; reflexivity|]. split; vm_compute; reflexivity.
 Qed.
 
